@@ -27,6 +27,11 @@ func init() {
 	props["C11"] = cli("C10 worlds plus destinations absent / never written / independent / partially equal; sum-copy, then library reads of the destination against the model sum, then sum-diff (must be clean), then a deviation written through the library and sum-diff again (must list exactly the deviating slots). Non-trivial: a sum was stored and compared or a deviation was detected; distinct = distinct case hash")
 	props["C18"] = cli("each run builds one file with values needing 17 digits, infinities, NaN, signed zero and holes, executes view or view-raw (selections, windows, header on/off, sort on/off) and compares the parsed output with library fetches / raw slots bitwise; view points are looked up in view-raw. Non-trivial: lines compared; distinct = distinct case hash")
 	props["C20"] = cli("each run executes generate for a seeded layout, maximum, fill on/off at an instant aligned or unaligned to each archive's step (optionally onto an existing path) and checks header, emptiness, completeness, value range and that every coarser slot fully covered by retained finer slots equals their sum. Non-trivial: a filled file or an existing destination was checked; distinct = distinct case hash")
+	c16 := cli("each run is one cell of the grid {view, view-raw, diff, copy, sum, sum-copy, sum-diff, generate} x {all, each id, -2, n} x {default, past, future, beyond the finest / each archive's retention, degenerate, from>until} x {none, text-out unopenable, text-out /dev/full, source missing, source corrupt, destination parent is a file, destination exists, destination missing} x {no text-out, stdout, file}, local and (for read commands) remote, struct and Parse(args), on a seeded world; a recovered panic or a success without evidence of the work is a violation. Non-trivial: the cell executed; distinct = distinct case hash; distinct_states = distinct grid cells")
+	c16.level = "fault_enumeration"
+	c16.quick = tierCfg{runs: 4000, budget: 45}
+	c16.thorough = tierCfg{runs: 200000, budget: 1200}
+	props["C16"] = c16
 	c13 := lib("each run is 2-5 actors (writers doing read-modify-write of a generation stamp over every slot of a multi-page archive, readers, abandoners, openers that fail after the descriptor was obtained) performing up to 14 sessions on one file under the seeded scheduler with statement-level preemption; invariants after every event, final counter, lock-lifetime probes and a porcupine linearizability check of the session history. Non-trivial: lock contention actually occurred (an opener parked in the lock hook while a handle was held) or a failed open was probed; distinct = distinct case hash; distinct interleavings = distinct context-switch signatures")
 	c13.quick = tierCfg{runs: 3000, budget: 45}
 	c13.thorough = tierCfg{runs: 300000, budget: 1200}
